@@ -20,7 +20,7 @@ ASSUMPTIONS = [
     'ids are mathematical integers, domain widened to 0..1000 so that the 255/256 boundary is inside it; the shadowed bytes() keeps the real contract (ValueError outside 0..255)',
     'id-blind structural hash installed on the Pattern dataclasses in the harness process',
     'the three output files are in-memory sinks handed to ProofExp.serialize through get_serializing_interpreter',
-    'expected publication order = depth-first traversal of the import graph, imports before own axioms; compared up to repetition (a module imported along two edges may be published twice)',
+    'import graphs: none / one import / diamond (one arm without own axioms) / transitive import through an axiom-less module / module imported while empty and filled afterwards; expected publication order = depth-first traversal of the import graph, imports before own axioms; compared up to repetition (a module imported along two edges may be published twice)',
     'the ">256 symbols" clause is covered by one concrete run with 256 and 257 distinct symbols through the real bytes(), reported separately as a concrete test',
 ]
 OUTSIDE = 'more than 2 axioms per module / 2 claims / 3 modules; axiom patterns above 3 nodes'
@@ -107,6 +107,20 @@ def build_modules(ctx: Any, shape: int, nax: int, prof: str, nclaims: int, size:
         main.import_module(s1)
         main.import_module(s2)
         order = list(base._axioms) + list(s1._axioms) + list(base._axioms) + list(s2._axioms) + list(main._axioms)
+    elif shape == 3:
+        # transitive import through a module without axioms of its own
+        leaf = mk(axioms(1))
+        mid = mk([])
+        mid.import_module(leaf)
+        main.import_module(mid)
+        order = list(leaf._axioms) + list(main._axioms)
+    elif shape == 4:
+        # a module that is imported while still empty and gets its axioms afterwards
+        sub = mk([])
+        main.import_module(sub)
+        for a in axioms(1):
+            sub.add_axiom(a)
+        order = list(sub._axioms) + list(main._axioms)
     # claims: own axioms proved by loading them
     cands = list(main._axioms)
     claims = []
@@ -256,7 +270,7 @@ def levels(tier: str) -> list[dict]:
     q = tier == 'quick'
     bud = 100 if q else 1800
     L: list[dict] = []
-    plan = [(0, 1, 3), (0, 2, 2), (1, 1, 3), (1, 2, 2), (2, 1, 2)] if q else [(0, 1, 3), (0, 2, 3), (0, 3, 2), (1, 1, 3), (1, 2, 3), (2, 1, 3), (2, 2, 2)]
+    plan = [(0, 1, 3), (0, 2, 2), (1, 1, 3), (1, 2, 2), (2, 1, 2), (3, 1, 2), (4, 1, 2)] if q else [(0, 1, 3), (0, 2, 3), (0, 3, 2), (1, 1, 3), (1, 2, 3), (2, 1, 3), (2, 2, 2), (3, 1, 3), (4, 1, 3), (3, 0, 3)]
     for shape, nax, size in plan:
         L.append(dict(label=f'module/imports={shape},axioms={nax},size<={size},claims<=2', module=M, fn='h_module', kwargs=dict(shape=shape, nax=nax, nclaims=2, prof='ax', size=size), budget_s=bud, required=nax <= 1, twin=(shape == 1 and nax == 1)))
     L.append(dict(label='module/colliding-renderings/axioms=2,size<=3', module=M, fn='h_module', kwargs=dict(shape=0, nax=2, nclaims=1, prof='ax_collide', size=3), budget_s=bud, required=True, twin=False))
@@ -266,7 +280,7 @@ def levels(tier: str) -> list[dict]:
 
 
 def run(tier: str) -> dict:
-    res = common.run_levels(levels(tier))
+    res = common.run_levels(common.tiered(levels, tier))
     dv = concrete_symbol_limit()
     res['direct_violations'] = dv
     res['samples'] = [{'concrete_test': '256 / 257 / 300 distinct symbols through the real bytes()', 'violations': len(dv)}]
